@@ -49,7 +49,7 @@ Definition obs_compile (e : expr) (o : options) (clock : N) (mdts : list str) : 
   match compile e o (repeat clock (count_times e)) with
   | COk c => w "COK " ++ ser_iomap (c_iomap c)
              ++ flat_map (fun mdt => w " | " ++ esc (scheme_text c mdt)) mdts
-  | CErr k n => w "CERR " ++ esc (compile_error_text k n)
+  | CErr k n => w "CERR " ++ esc (compile_error_text k n ++ payload_text e)
   | CPanic _ => w "CPANIC"
   end.
 
